@@ -126,6 +126,7 @@ type World struct {
 	counts   map[string]int
 	hooks    []func()
 	endHooks []func()
+	klocks   map[any]*klock
 	Values   map[string]any // harness/shim attachments (snet, sfs ...)
 	main     *Task
 }
@@ -381,12 +382,75 @@ func Enter(t *Task) {
 	t.w.enter(t)
 }
 
-// Exit is deferred by the child.
+// Exit is deferred by the child. A panic escaping the goroutine would crash the real
+// process; in simulation it is recorded as an oracle verdict ("panic") and the run ends.
 func Exit(t *Task) {
 	if t == nil {
 		return
 	}
+	if r := recover(); r != nil {
+		w := t.w
+		buf := make([]byte, 6000)
+		n := runtime.Stack(buf, false)
+		w.mu.Lock()
+		if w.failure == nil && !w.dead {
+			w.failure = &Failure{Rule: "panic", Detail: fmt.Sprintf("goroutine %s panicked: %v\n%s", t.ID, r, buf[:n]), Step: w.steps, SimNS: int64(time.Since(w.start))}
+		}
+		w.mu.Unlock()
+	}
 	t.w.exit(t)
+}
+
+// klock is a scheduler-visible lock keyed by object identity, used to serialise calls
+// that take a mutex inside the standard library (gob Encoder/Decoder): a task parked by
+// the simulator inside such a call must not leave another task blocked on the real
+// mutex, which synctest cannot see.
+type klock struct {
+	held    bool
+	waiters []*Task
+}
+
+// Locked runs f while holding the simulator lock for key (instrumentation rule R6).
+func Locked[T any](key any, f func() T) T {
+	w := cur.Load()
+	if w == nil {
+		return f()
+	}
+	t := w.self("")
+	if t.dying {
+		return f()
+	}
+	w.mu.Lock()
+	if w.klocks == nil {
+		w.klocks = map[any]*klock{}
+	}
+	l := w.klocks[key]
+	if l == nil {
+		l = &klock{}
+		w.klocks[key] = l
+	}
+	if l.held {
+		l.waiters = append(l.waiters, t)
+		w.probes["stdlib_lock_contended"]++
+		w.mu.Unlock()
+		w.Block(t) // ownership handed over by the releaser
+	} else {
+		l.held = true
+		w.mu.Unlock()
+	}
+	defer func() {
+		w.mu.Lock()
+		if len(l.waiters) > 0 {
+			nx := l.waiters[0]
+			l.waiters = l.waiters[1:]
+			w.markReadyLocked(nx)
+		} else {
+			l.held = false
+			delete(w.klocks, key)
+		}
+		w.mu.Unlock()
+	}()
+	return f()
 }
 
 // Go starts f as a new task (harness side).
@@ -621,6 +685,9 @@ func (w *World) Choose(kind Kind, n int) int { return w.stream.choose(kind, n, -
 func (w *World) ChooseP(kind Kind, n int, p0 float64) int { return w.stream.choose(kind, n, p0) }
 
 func (w *World) Now() time.Duration { return time.Since(w.start) }
+
+// Config returns the run's configuration (harnesses derive scenario classes from it).
+func (w *World) Config() RunConfig { return w.cfg }
 
 func (w *World) Seq() uint64 {
 	w.seq++
